@@ -264,9 +264,12 @@ def seeds(seed):
                   "40 remark = two", f"50 deny ip host {ip(w + 1)} any", "60 permit ip any any"],
          {"GRP": mem_nx}, PREFIX),  # this seed starts grouped (blocks carry sequence numbers)
         # first and last line are equal; the last one already carries the number 10
-        ("ios", ["permit 47 any any", "remark lead", f"permit ip {ip(w)} 0.0.1.3 any",
+        # ... and a port-less tcp entry above a tcp entry with ports (protocol_nr renders the
+        # former as a number and keeps the keyword of the latter)
+        ("ios", ["permit 47 any any", "remark lead", "permit tcp host 10.3.3.3 any",
+                 f"permit ip {ip(w)} 0.0.1.3 any",
                  "remark = only", "deny tcp any any neq 25", "permit tcp any any eq 135",
-                 "10 permit 47 any any"], {}, ""),
+                 "permit tcp host 10.3.3.3 any eq 22", "10 permit 47 any any"], {}, ""),
     ]
 
 
@@ -501,7 +504,7 @@ def run_history(si, ops, ctx, independence=True):
     n_leaves = len(model.flat())
     if any(o in ops for o in ("platform=nxos", "ungroup_ports")) and si == 0:
         ctx.out("split_happened")
-    if "delete_shadow" in ops and n_leaves < (8 if si == 0 else 7 if si == 2 else 6) + ops.count("insert"):
+    if "delete_shadow" in ops and n_leaves < (8 if si == 0 else 9 if si == 2 else 6) + ops.count("insert"):
         ctx.out("shadow_removed")
     if model.group_by:
         ctx.out("regrouped")
